@@ -1082,6 +1082,38 @@ def case_history(ctx, model, case):
     ctx.sample({"stream": "history", "ops": [o["what"] if o["kind"] == "reject" else o["kind"] for o in ops]}, limit=9)
 
 
+def fixed_histories():
+    """a FIXED block (the same for every seed and tier) enumerating the class 'a call rejected part-way, then a valid call that
+    maps to the same (batch, #angles, padded size, dtype) but reads / writes another detector column range':
+    reject kind x geometry transition x batch size, each preceded by nothing (cold) so that the rejected call is the first user
+    of whatever state there is, and followed by a second valid call with the geometry of the rejected one."""
+    out = []
+    rejects = ["iradon-unknown-filter", "iradon-negative-output-size", "iradon-fractional-output-size"]
+    # (width, circle) of the rejected call -> (width, circle) of the valid call; all padded to 64, resp. the last one to 128
+    transitions = [((14, True), (14, False)), ((14, False), (14, True)), ((14, True), (10, True)), ((10, False), (16, False)),
+                   ((20, True), (9, True)), ((30, True), (40, False))]
+    names = ["hann", "ramp", "cosine", None, "hamming", "shepp-logan"]
+    k = 0
+    for what in rejects:
+        for (n1, c1), (n2, c2) in transitions:
+            for B in (1, 2):
+                A = 2 + (k % 2)
+                thetas = [[33.0, 101.5], [20.0, 77.25, 140.5]][k % 2]
+                for alt in ([31.0, 103.5], [22.0, 79.25, 142.5], [36.5, 98.0], [17.0, 81.0, 137.0]):     # keep clear of the detector ends
+                    if len(alt) == A and min(edge_distance(n2, thetas, c2), edge_distance(n1, thetas, c1)) <= 1e-3:
+                        thetas = alt
+
+                def valid(n, c, sd):
+                    return {"kind": "iradon", "N": n, "A": A, "sino": "random", "seeds": [sd + b for b in range(B)], "thetas": thetas,
+                            "filter": names[k % 6], "circle": c, "out": None, "keepdim": B > 1}
+                out.append({"kind": "history", "scribble": False, "ops": [
+                    {"kind": "reject", "what": what, "N": n1, "A": A, "B": B, "circle": c1, "seed": 100 + k, "name": "hanning",
+                     "good_name": names[(k + 1) % 6] or "ramp"},
+                    valid(n2, c2, 1000 + 10 * k), valid(n1, c1, 2000 + 10 * k)]})
+                k += 1
+    return out
+
+
 def gen_history(ctx, rng):
     """4-8 calls.  Batch size, number of angles and the padded-size family are drawn once per history and re-used by most
     calls (a stale buffer / cache entry is only visible to a later call that maps to the same key); geometry (width, circle,
@@ -1291,6 +1323,16 @@ WITNESSES = [
     {"kind": "iradon", "N": 10, "A": 3, "sino": "random", "seeds": [11], "thetas": None, "filter": "ramp", "circle": True, "form": "min"},
     {"kind": "iradon", "N": 10, "A": 2, "sino": "random", "seeds": [12], "thetas": [15.0, 95.0], "filter": "cosine", "circle": False, "out": 9, "form": "pos",
      "device": "cpu"},
+    # seed-independent witnesses of input classes that earlier seeded changes needed (so far covered by random draws only):
+    # 2*D an exact power of two with a windowed filter (image 22 / 45 in circle mode, width 32 without), an angle set containing
+    # exactly 180 with an even and an odd size, the default angle set with a number of projections that does not divide 180
+    {"kind": "iradon", "N": 22, "A": 2, "sino": "random", "seeds": [51], "thetas": [21.5, 111.0], "filter": "hann", "circle": True},
+    {"kind": "iradon", "N": 32, "A": 2, "sino": "random", "seeds": [52], "thetas": [21.5, 111.0], "filter": "hamming", "circle": False},
+    {"kind": "iradon", "N": 45, "A": 1, "sino": "random", "seeds": [53], "thetas": [63.0], "filter": "cosine", "circle": True},
+    {"kind": "radon", "N": 16, "img": "random", "seeds": [54], "thetas": [180.0, 0.0], "masked": False},
+    {"kind": "radon", "N": 7, "img": "random", "seeds": [55], "thetas": [180.0], "masked": False},
+    {"kind": "iradon", "N": 9, "A": 7, "sino": "random", "seeds": [56], "thetas": None, "filter": "ramp", "circle": True, "form": "min"},
+    {"kind": "iradon", "N": 12, "A": 8, "sino": "random", "seeds": [57], "thetas": None, "filter": "hann", "circle": True},
     # session_agree: rejected calls (unknown filter after the padding step, bad output size after the filtering step) between valid
     # calls that share batch size, number of angles and padded size but not the detector column range
     {"kind": "history", "scribble": True, "ops": [
@@ -1364,6 +1406,10 @@ def run(ctx):
             rng = ctx.rng.fork(9500 + i)
             dispatch(ctx, model, gen_rect_case(rng, False), False)
         # --- histories of calls in one process (valid, rejected part-way, caller overwrites what it was handed)
+        if not ctx.search_mode:
+            for hcase in fixed_histories():      # enumerated class, independent of seed and tier
+                ctx.dist["history:fixed-block"] += 1
+                dispatch(ctx, model, hcase)
         for i in range(ctx.n(45, 450)):
             rng = ctx.rng.fork(10000 + i)
             dispatch(ctx, model, gen_history(ctx, rng))
